@@ -4,11 +4,11 @@ From V.C03 Require Import Model Spec Proofs.
 Open Scope Z_scope.
 
 Definition nolib : golib :=
-  {| parse_float := fun _ => None; fmt_float := fun _ => ""%string;
+  {| parse_float := fun _ => None; parse_int := fun _ => None; fmt_float := fun _ => ""%string;
      pow_float := fun _ _ => nan; obj_str := fun _ _ => ""%string |}.
 
 (* hypotheses of model_is_ref_on_D are satisfiable, non-trivially *)
-Example ex_inD_mul : inD OMul (VInt 2) (VFloat 1.5) = true /\ wf (VInt 2) = true /\ wf (VFloat 1.5) = true.
+Example ex_inD_mul : inD nolib OMul (VInt 2) (VFloat 1.5) = true /\ wf (VInt 2) = true /\ wf (VFloat 1.5) = true.
 Proof. repeat split. Qed.
 Example ex_mul : binop_eval nolib false OMul (VInt 2) (VFloat 1.5) = Val (VFloat 3).
 Proof. vm_compute. reflexivity. Qed.
